@@ -395,6 +395,7 @@ theorem getRowIndices_keeps (t : Tbl) (h : Coherent t) (m : String → Match) (s
   | all => exact Keeps.refl h
   | pos i => exact Keeps.refl h
   | tuple l => exact Keeps.refl h
+  | range lo hi c => simp only [getRowIndices]; (repeat' split) <;> exact Keeps.refl h
 
 /-! ### one step of a tuple selector -/
 
